@@ -69,6 +69,19 @@ def main():
     for n in ('Unknown', 'Synchronized', 'FreeRunning'):
         if n not in codes:
             sys.stderr.write('translate_consts: ClockStatus variants changed\n'); sys.exit(2)
+    # the clock-status FSM as its transition table: impl FSMTransition for ShmClockState<X> { match chrony { … } }
+    fsm_src = open(os.path.join(REPO, 'clock-bound-d/src/shm_writer/clock_state_fsm.rs')).read()
+    order = {'Unknown': 0, 'Synchronized': 1, 'FreeRunning': 2}
+    table = {}
+    for st, body in re.findall(r'impl FSMTransition for ShmClockState<(\w+)>\s*\{(.*?)\n\}', fsm_src, re.S):
+        for inp, out in re.findall(r'ChronyClockStatus::(\w+)\s*=>\s*bstate!\((\w+)\)', body):
+            table[(st, inp)] = out
+    if len(table) != 9 or any(k[0] not in order or k[1] not in order or v not in order for k, v in table.items()):
+        sys.stderr.write('translate_consts: cannot extract the 3x3 FSM table\n'); sys.exit(2)
+    fsm_rows = ', '.join(f'({order[a]}, {order[b]}, {order[v]})' for (a, b), v in sorted(table.items(), key=lambda kv: (order[kv[0][0]], order[kv[0][1]])))
+    # initial FSM state
+    m = grab('clock-bound-d/src/shm_writer/clock_state_fsm.rs', r'impl Default for ShmClockState\s*\{.*?clock_status:\s*ClockStatus::(\w+)', 'FSM initial state')
+    c['fsmInitial'] = order[m.group(1)]
     lines = ['-- GENERATED by tools/translate_consts.py from /repo\'s working tree. Do not edit.',
              'namespace ClockBound.Generated.Consts', '']
     for k, v in c.items():
@@ -76,6 +89,8 @@ def main():
     lines += [f'def statusUnknown : Nat := {codes["Unknown"]}', f'def statusSynchronized : Nat := {codes["Synchronized"]}',
               f'def statusFreeRunning : Nat := {codes["FreeRunning"]}',
               f'def daemonPath : String := "{p1}"', f'def clientPath : String := "{p2}"', f'def cHeaderPath : String := "{p3}"',
+              '/-- (state, chrony input, next state) with 0 = Unknown, 1 = Synchronized, 2 = FreeRunning -/',
+              f'def fsmTable : List (Nat × Nat × Nat) := [{fsm_rows}]',
               '', 'end ClockBound.Generated.Consts', '']
     text = '\n'.join(lines)
     old = open(OUT).read() if os.path.exists(OUT) else None
